@@ -728,6 +728,10 @@ def shrink(prog, stage, budget=120):
                     inner = chk(st["body"]["nodes"], set(st["params"]))
                     if inner is False or st["body"]["out"] not in inner:
                         return False
+                if st["op"] == "loop":
+                    inner = chk(st["body"]["nodes"], vis | {st["param"]})
+                    if inner is False or st["body"]["out"] not in inner:
+                        return False
                 vis.add(st["id"])
             return vis
 
@@ -843,6 +847,15 @@ def targeted_programs():
     for k, opn in enumerate(sorted(L.ORT_MACROS)):
         for src, (top, tmv) in ((17, ("identity", 21)), (18, ("isnan_w", 20)), (19, ("identity", 21))):
             P.append({"nodes": [st("a", opn, src, ["x"]), st("b", top, tmv, ["a"])], "outs": ["b"]})
+    # Loop bodies (has-subgraph, never converted themselves) with convertible nodes inside
+    P.append({"nodes": [{"id": "l", "op": "loop", "mv": 17, "param": "s", "args": ["x"],
+                         "body": {"nodes": [st("t", "rmean", 17, ["s"], axis=1), st("u", "add", 17, ["t", "y"])], "out": "u"}},
+                        st("d", "fix", 21, ["l"])], "outs": ["d"]})
+    P.append({"nodes": [{"id": "l", "op": "loop", "mv": 19, "param": "s", "args": ["x"],
+                         "body": {"nodes": [{"id": "i", "op": "if", "mv": 17, "cond": "c",
+                                             "then": {"nodes": [st("t", "rl2", 17, ["s"], axis=0)], "out": "t"},
+                                             "else": {"nodes": [st("e", "grid_sample", 18, ["s"])], "out": "e"}}], "out": "i"}},
+                        st("d0", "fix", 21, ["l"]), st("d", "isnan_w", 20, ["d0"])], "outs": ["d"]})
     # a function body alone carries the model's maximum; a convertible node sits in a body elsewhere
     for hi, (pop, pmv) in ((21, ("identity", 21)), (19, ("identity", 19)), (18, ("pad", 18))):
         P.append({"nodes": [{"id": "f", "op": "func", "name": f"fhi{hi}", "params": ["p"], "args": ["y"],
@@ -972,7 +985,7 @@ def run(ck: core.Check):
     cases += gen_programs(ck)
 
     stats = {"programs": 0, "built": 0, "max_depth": 0, "with_if": 0, "with_inline": 0, "with_func": 0,
-             "with_ml": 0, "with_dyn": 0, "with_history": 0, "nodes_adapted": 0, "converted_nodes": 0,
+             "with_ml": 0, "with_dyn": 0, "with_loop": 0, "with_changed_schema_op": 0, "with_history": 0, "nodes_adapted": 0, "converted_nodes": 0,
              "converted_inlines": 0, "conversions_form_checked": 0, "imports_seen": {}, "stages": {},
              "worker_crashes": 0}
     import multiprocessing as mp
@@ -1031,6 +1044,8 @@ def run(ck: core.Check):
         for k, o in (("with_if", "if"), ("with_inline", "inline"), ("with_func", "func"), ("with_dyn", "dyn")):
             stats[k] += int(o in ops_used)
         stats["with_ml"] += int(any(o.startswith("ml_") for o in ops_used))
+        stats["with_loop"] += int("loop" in ops_used)
+        stats["with_changed_schema_op"] += int(any(o in L.ORT_MACROS for o in ops_used))
         stats["with_history"] += int("prebuild_outs" in prog)
         for k in ("nodes_adapted", "converted_nodes", "converted_inlines"):
             stats[k] += r["stats"].get(k, 0)
